@@ -91,13 +91,6 @@ package ice
 //@   site call Close#1 assert closes-the-listener: recv == m.params.Listener
 //@   ensures closed-and-emptied: m.closed && len(m.connsIPv4) == 0 && len(m.connsIPv6) == 0
 
-//@ func (*TCPMuxDefault).removeConnByUfragAndLocalHost
-//@   props C15
-//@   opt nosafety
-//@   site call closeAndLogError#1 assert closes-only-the-removed-connections: arg1.payload == conn
-//@   site call delete#1 assert removes-exactly-this-local-address: arg0 == conns && arg1 == localIPAddr
-//@   site call delete#3 assert removes-exactly-this-local-address-v6: arg0 == conns && arg1 == localIPAddr
-
 // Every store to the mux's closed flag and tables is in the functions above.
 //@ enumerate C15 stores ice.TCPMuxDefault.closed in (*TCPMuxDefault).Close
 //@ enumerate C15 stores ice.TCPMuxDefault.connsIPv4 in NewTCPMuxDefault, (*TCPMuxDefault).Close
@@ -123,3 +116,18 @@ package ice
 //@   site call String#1 ghost dup := has(t.conns, result)
 //@   ensures closed-packet-conn-attaches-nothing: old(closed(t.closedChan)) ==> result != nil
 //@   ensures a-remote-address-is-attached-at-most-once: !old(closed(t.closedChan)) && dup ==> result != nil
+
+// Cleanup after a packet connection closed: an emptied per-ufrag table is dropped
+// from the family it belongs to (never from the other one).
+//@ func (*TCPMuxDefault).removeConnByUfragAndLocalHost
+//@   props C15
+//@   opt nosafety
+//@   site call closeAndLogError#1 assert closes-only-the-removed-connections: arg1.payload == conn
+//@   site call delete#1 assert removes-exactly-this-local-address: arg0 == conns && arg1 == localIPAddr
+//@   site call delete#2 assert drops-the-emptied-ipv4-table-from-the-ipv4-family: arg0 == m.connsIPv4 && arg1 == ufrag && len(conns) == 0
+//@   site call delete#3 assert removes-exactly-this-local-address-v6: arg0 == conns && arg1 == localIPAddr
+//@   site call delete#4 assert drops-the-emptied-ipv6-table-from-the-ipv6-family: arg0 == m.connsIPv6 && arg1 == ufrag && len(conns) == 0
+
+// The alive timer is only ever stopped: nothing in the package re-arms a timer except the
+// agent's connectivity-check ticker.
+//@ enumerate C15 calls time.(*Timer).Reset in (*Agent).connectivityChecks
